@@ -471,6 +471,7 @@ let parse_case c =
   | ParseFuel -> Printf.printf "id=%s\tfuel=parse\n" (field c "id")
 
 let run_case c =
+  if String.length (field c "script") > 400000 then Printf.printf "id=%s\tneed=big\n" (field c "id") else
   match field c "kind" with
   | "lex" -> lex_case c
   | "parse" -> parse_case c
